@@ -54,6 +54,12 @@ CONFIG = {
         "node in document order (by anchor name) is the original, wherever it stands - also beneath a matched key "
         "or beneath the value of an excluded aliased key, which the search does not enter",
         "a null document is empty: it has no places (the Processor yields no node for any path on it)",
+        "document well-formedness doc_wf (the hypothesis of C07_alias_excluded_wf_partial, from which the former "
+        "assumption shared_closed is proved): evaluated on EVERY encoded document - the extracted "
+        "same_oid_same_tree / c07_keys_leaf / merged_closed (request paths-docwf) against an independent evaluation "
+        "on the real object graph; a false same_oid_same_tree or c07_keys_leaf is reported as a broken assumption; "
+        "merged_closed is false only for a merge source that is an inline mapping first defining an anchor "
+        "(bucket merge-inlinemerge, corpus case)",
     ],
 }
 
